@@ -51,19 +51,4 @@ Qed.
 Theorem pretty_total sel : exists o, pretty sel = Some o.
 Proof. unfold pretty. apply pretty_loop_total; lia. Qed.
 
-(* ---- get_pattern_context: line and column, against the specification, bounded-exhaustive ---- *)
-Fixpoint all_strings (alphabet : list cp) (n : nat) : list str :=
-  match n with
-  | O => [[]]
-  | S k => all_strings alphabet k ++ flat_map (fun s => map (fun c => c :: s) alphabet)
-                                              (filter (fun s => Nat.eqb (length s) k) (all_strings alphabet k))
-  end.
-Definition gpc_ok (s : str) (i : nat) : bool :=
-  let '(_, line, col) := get_pattern_context s (Z.of_nat i) in
-  let '(l2, c2) := line_col s i in
-  Z.eqb line l2 && Z.eqb col c2.
-Definition gpc_check (n : nat) : bool :=
-  forallb (fun s => forallb (gpc_ok s) (seq 0 (S (length s)))) (all_strings [97; 10; 13]%N n).
-
-Theorem gpc_line_col_bounded : gpc_check 7 = true.
-Proof. vm_compute. reflexivity. Qed.
+(* get_pattern_context against its specification: LineFacts.v (for every string, no bound) *)
